@@ -2,11 +2,13 @@ SPECIFICATION Spec
 CONSTANTS
   MaxImports = 3
   FewMax = 2
-  UseLayouts = {"plain", "tight", "trail", "oneline", "stray"}
+  UseLayouts = {"plain", "tight", "trail", "oneline", "stray", "local"}
   Layouts3 = {"plain", "tight", "trail"}
   NExporters = {1, 2}
   ExtMaxFull = 2
   ExtMaxLite = 3
   LiteCmts = {"none"}
   ExtLayouts = {"plain", "tight", "trail"}
+  BoundMax = 3
+  BoundLayouts = {"plain", "tight", "trail", "oneline"}
 INVARIANTS ReadsBack NewlineFixGood GlueFixGoodIffSeparated GlueOkNeedsSemicolon ApplySane Emit
